@@ -234,6 +234,7 @@ fn check(c: &Case) -> Verdict {
     for i in 0..d.len() {
         let before_h = buf.get_height();
         let before_y = caret.get_position().y;
+        let before_size = (buf.terminal_state.get_width(), buf.terminal_state.get_height());
         let r = panics::guarded(|| {
             let _ = parser.print_char(&mut buf, 0, &mut caret, d[i] as char);
         });
@@ -241,8 +242,9 @@ fn check(c: &Case) -> Verdict {
             // a panic is C01's subject; the history ends here
             return Verdict::pass(false, "ended_by_panic(C01)");
         }
-        if is_resize_request(d, i) {
-            // the statement excludes streams that request a text-area resize
+        if is_resize_request(d, i) || (d[i] == b't' && before_size != (buf.terminal_state.get_width(), buf.terminal_state.get_height())) {
+            // the statement excludes streams that request a text-area resize; the request is recognised by its spelling and by its effect
+            // (the parser also accepts spellings such as `CSI ;8;;t`)
             return Verdict::discard("resize request in stream");
         }
         if let Some((clause, msg)) = violated(c, &geo, &buf, &caret) {
